@@ -173,6 +173,19 @@ def check_case(case):
         # the same two clauses judged against the TREE (our own traversal) instead of the walker's account of it: every
         # non-whitespace character of the tree comes out, in order; and where the tree says 'not inside pre/textarea/raw text'
         # no tab, newline or form feed survives
+        if walker == "dom" and container is None:
+            # the dom tree has one text node per character token, so the filter's output shows where tokens end: that must not depend
+            # on how the characters arrived (here: the same text through a text stream that returns 5, 3, 7, 2 ... characters per read)
+            from vf.props.c02 import _ShortReads
+            try:
+                r2, _p2 = h5.parse(_ShortReads(text, [5, 3, 7, 2, 11]), builder="dom", full_tree=True, scripting=bool(case.get("scripting")))
+                other = list(Filter(h5.walk(r2, "dom")))
+            except Exception as e:
+                other = None
+            if other is not None and other != want:
+                k = next((i for i, (a, b) in enumerate(zip(other, want)) if a != b), min(len(other), len(want)))
+                return Verdict("fail", "filtered dom stream depends on how the text arrives (token %d: %s read in short pieces, %s in one piece); input %s"
+                               % (k, short(other[k:k + 1], 100), short(want[k:k + 1], 100), short(text, 160)), "arrival-dependent", nontrivial=True)
         msg = tree_clause(obs.flat(r), want)
         if msg:
             return Verdict("fail", "%s; %s walker, input %s" % (msg, walker, short(text, 200)), "tree:" + msg.split(":")[0][:40], nontrivial=True)
